@@ -41,6 +41,8 @@ pub struct Shared {
 	/// CONC: poison states that take effect when the unwinding of this thread's
 	/// panic is complete (until then the wrappers are in transition: Unspec)
 	pub pending_poison: HashMap<Tid, Vec<(WrapId, PState)>>,
+	/// leaf locks killed with RawLock::poison
+	pub killed: Vec<Lid>,
 	/// holds leaked on purpose with mem::forget: (tid, lid, shared)
 	pub leaked: Vec<(Tid, Lid, bool)>,
 	pub phantoms: Vec<(Lid, bool, Tid)>,
@@ -844,6 +846,63 @@ pub fn run_step(env: &Env, ctx: &mut ThreadCtx, idx: usize, step: &Step) -> Step
 					}
 				}
 				None => executed = false,
+			}
+		}
+		Step::UnwindingDrop { inner } => {
+			if matches!(**inner, Step::Scoped { .. }) {
+				env.label("scoped_call_in_destructor_during_unwind");
+				struct OnDrop<F: FnMut()>(F);
+				impl<F: FnMut()> Drop for OnDrop<F> {
+					fn drop(&mut self) {
+						(self.0)()
+					}
+				}
+				struct OuterPanic;
+				let ctxp: *mut ThreadCtx = ctx;
+				let mut end = StepEnd::Continue;
+				let endp: *mut StepEnd = &mut end;
+				let _ = catch_unwind(AssertUnwindSafe(|| {
+					let _d = OnDrop(|| {
+						// nothing may escape from a destructor that runs during an unwinding
+						crate::exec::set_unwind_drop(true);
+						let r = catch_unwind(AssertUnwindSafe(|| unsafe { run_step(env, &mut *ctxp, idx, inner) }));
+						crate::exec::set_unwind_drop(false);
+						match r {
+							Ok(e) => unsafe { *endp = e },
+							Err(p) => {
+								if let PanicKind::Other(m) = classify_panic(p) {
+									env.finding("PANIC", tid, format!("unexpected-panic|in-destructor|{}", first_words(&m)), m);
+								}
+								unsafe { *endp = StepEnd::Aborted };
+							}
+						}
+					});
+					std::panic::panic_any(OuterPanic);
+				}));
+				if matches!(end, StepEnd::Aborted) {
+					return StepEnd::Aborted;
+				}
+			} else {
+				executed = false;
+			}
+		}
+		Step::Kill { leaf } => {
+			if *leaf < env.world.leaves.len() {
+				if let Some(tg) = env.world.target(TargetRef::Leaf(*leaf)) {
+					non_acquiring(env, tid, &format!("kill L{leaf}"), || {
+						tg.kill();
+					});
+					let mut sh = env.sh();
+					if !sh.killed.contains(&(*leaf as Lid)) {
+						sh.killed.push(*leaf as Lid);
+					}
+					drop(sh);
+					env.label("killed_lock");
+				} else {
+					executed = false;
+				}
+			} else {
+				executed = false;
 			}
 		}
 		Step::IsPoisoned { target } => match target_of(env, *target) {
@@ -1714,7 +1773,34 @@ fn after_fault_panic(env: &Env, ctx: &mut ThreadCtx, what: &str) {
 	let _ = what;
 	env.sh().last_outcome = "panicked".into();
 	if !env.opts.faults {
-		env.finding("PANIC", ctx.tid, format!("raw-panic-without-fault-plan|{what}"), "a raw-operation panic surfaced although no fault was planned");
+		if env.sh().killed.is_empty() {
+			env.finding("PANIC", ctx.tid, format!("raw-panic-without-fault-plan|{what}"), "a raw-operation panic surfaced although no fault was planned");
+		} else {
+			// a killed lock refused a blocking acquisition: the unwinding hands the
+			// key back, so nothing the call took may still be held
+			env.label("killed_lock_refused");
+			let own: Vec<(Lid, bool)> = held_now(env, ctx.tid).into_iter().filter(|(l, s)| !env.sh().leaked.iter().any(|(t, ll, ss)| *t == ctx.tid && ll == l && ss == s)).collect();
+			if !own.is_empty() && ctx.guard.is_none() {
+				env.finding(
+					"C03",
+					ctx.tid,
+					format!("key-back-while-holding|refused-by-killed-lock|{what}"),
+					format!("{what} was refused by a killed lock (panic) and the thread got its key back while it holds {}", fmt_held(&own)),
+				);
+				env.finding(
+					"C05",
+					ctx.tid,
+					format!("still-held-after-refusal|{what}"),
+					format!("{what} was refused by a killed lock (panic) but left {} held", fmt_held(&own)),
+				);
+				env.finding(
+					"C11",
+					ctx.tid,
+					format!("leak-after-panic|killed-refusal|{what}"),
+					format!("{what} panicked (killed lock) and left {} held", fmt_held(&own)),
+				);
+			}
+		}
 	}
 	if ctx.key.is_none() && ctx.guard.is_none() && !ctx.key_lost {
 		if let Some(k) = ThreadKey::get() {
